@@ -706,12 +706,21 @@ fn cmd_scenario(args: &BTreeMap<String, String>) -> i32 {
     let s = match name.as_str() {
         "s3" => scripted::s3(),
         "persist_notice_after_truncation" => scripted::persist_notice_after_truncation(),
+        "duplicate_forwarded_read" => scripted::duplicate_forwarded_read(),
         _ => {
             eprintln!("usage: raftsim scenario s3 [--write file] [--states]");
             return 2;
         }
     };
     println!("scenario {name}: {} actions", s.trace.len());
+    if args.contains_key("verbose") {
+        let mut w = World::new(s.world.cfg.clone());
+        w.verbose = true;
+        for (i, a) in s.trace.iter().enumerate() {
+            eprintln!("#{} {}", i + 1, serde_json::to_string(a).unwrap());
+            let _ = w.apply(a);
+        }
+    }
     if args.contains_key("states") {
         for x in s.world.nodes.values() {
             if x.started {
